@@ -413,7 +413,7 @@ def substitute(progression, substitute_index, depth=0):
         ("V", "VIIdim7"),
         ("V", "IIdim7"),
         ("V", "IVdim7"),
-        ("V", "bVIIdim7"),
+        ("V", "bVIdim7"),
     ]
     p = progression[substitute_index]
     (roman, acc, suff) = parse_string(p)
